@@ -443,6 +443,21 @@ func (e *Env) Visit(snap int, name string, kind VisitKind, target []byte, withVa
 		e.Failf(fmt.Sprintf("visit/wrong-sequence/kind=%d", kind), "target %s withValue=%v stop=%d: %s", kvString(target), withValue, stop, d)
 		return
 	}
+	if depths != nil && e.Cfg.Walk && snap < 0 {
+		// introspected true depth (also valid with tied or lowered priorities)
+		if td := e.TrueDepths(name); td != nil {
+			for i, kv := range got {
+				if td[string(kv.Key)] != depths[i] {
+					e.Failf("visit/wrong-depth", "key %s reported at depth %d, the node's true depth is %d", kvString(kv.Key), depths[i], td[string(kv.Key)])
+					return
+				}
+			}
+			e.Stats["visit.true-depths-checked"] += int64(len(got))
+		}
+		if e.Failed() {
+			return
+		}
+	}
 	if depths != nil && !m.HeapOff {
 		if canon, ok := m.Depths(); ok {
 			for i, kv := range got {
